@@ -256,6 +256,47 @@ def generate_within(seed, ncases, length):
                       "ops": WithinGen(rng, cap, mcap).case(length)})
     return cases
 
+def load_file(path, tag):
+    cases, cur = [], None
+    for l in open(path):
+        l = l.strip()
+        if not l or l.startswith("#"):
+            continue
+        if l.startswith("backend lru "):
+            t = l.split()
+            cur = {"id": f"{tag}#{len(cases)}", "backend": l[8:], "cap": int(t[2]), "mcap": int(t[3]), "ops": []}
+            cases.append(cur)
+        elif l.startswith("backend "):
+            cur = None
+        elif cur is not None:
+            cur["ops"].append(l)
+    return cases
+
+def replay(prop, path):
+    """./check C10 --replay <trace of this engine>: both outputs where they differ, oracle verdict"""
+    cases = load_file(path, "replay:" + os.path.basename(path))
+    run(cases)
+    corr = correspondence(cases)
+    fails, stats = oracle(cases)
+    for c in cases:
+        print(f"== {c['id']} [{c['backend']}] {len(c['ops'])} operations")
+        for k, (op, a, b, ev) in enumerate(zip(c["ops"], c["impl"], c["model"], c["evict"])):
+            mark = "" if S.same(a, b) else f"\n        MODEL: {b[:300]}"
+            evs = (" evicted " + ",".join(f"{CACHES[x]}:{y}" for x, y in ev)) if ev else ""
+            print(f"  {k:3} {op[:70]:70} -> {a[:160]}{evs}{mark}")
+    for f in corr:
+        print("CORRESPONDENCE:", f["what"][:500])
+    for f in fails:
+        print(f"ORACLE {f['signature']}:", f["what"][:500])
+    print("observations:", stats)
+    if stats.get("ghost_after_collision"):
+        print("NOTE lru-index-ghost-after-collision reproduced: find_group_by_nostr_group_id answers a group the primary cache has dropped "
+              "(beyond the capacity and downstream of the open finding restore-nostr-id-collision; reported, outside C10's documented limits)")
+    known = C.load_findings(prop)
+    new = [f for f in fails if f["signature"] not in known]
+    print("verdict:", "property violated on the implementation" if new else ("known finding reproduced" if fails else ("model and implementation disagree" if corr else "property holds on this trace")))
+    return 1 if (new or corr) else 0
+
 def load_corpus():
     d = os.path.join(C.VERIF, "corpus", "C10lru")
     cases = []
